@@ -36,6 +36,8 @@ var c11Conds = []struct{ name, cond string }{
 	// a computed selector whose index expression also occurs on its own (cloned before the selector) and differs
 	// between the fact states
 	{"computed-selector", "F.I2 < 2 && F.SelArr[F.I2] == 5"},
+	// time values far from the present (an "open ended" sentinel of year 9999, a date of 1492)
+	{"far-times", "F.T < G.T && G.T >= F.T"},
 }
 
 type c11Case struct {
@@ -53,6 +55,13 @@ func c11World(i2 int64) func() *ref.World {
 		f.I2 = i2
 		f.Arr = []int64{1}
 		f.SelArr = []int64{5, 6}
+		f.T = time.Date(2024, 2, 29, 12, 0, 0, 0, time.UTC)
+		if i2 != 0 {
+			f.T = time.Date(1492, 10, 12, 0, 0, 0, 0, time.UTC)
+		}
+		g := facts.New()
+		g.T = time.Date(9999, 12, 31, 23, 59, 59, 0, time.UTC)
+		w.Objs["G"] = g
 		if i2 == 0 {
 			f.M = map[string]int64{"k": 5}
 		} else {
@@ -286,7 +295,7 @@ func C11(rep *ev.Reporter, tier string) {
 		rep.Exhaustive = false
 		rep.Coverage["caps_hit"] = "time budget"
 	}
-	rep.Coverage["rule"] = "every rule set of 2 rules over 14 conditions (true, false, state-dependent, shared sub-expression, nil pointer, missing fact, kind mismatch, index out of range, parenthesised map lookup that errors in one world - shared between two shapes; && / || whose left operand fails while the right one is shared with another rule and would decide; a computed selector whose index expression also stands alone) x 6 salience pairs x removal sets (library- and instance-level) x both values of ReturnErrOnFailedRuleEvaluation, every rule set of 3 rules over 5 (thorough 8) conditions x 6 salience triples x 3 removal sets x flag (thorough: 4 rules), 2 fact states, EVERY rule-iteration order (k!), each call on a fresh instance AND on an instance that served an earlier Fetch with the other fact state AND on one that served an earlier Execute (every rule retracts itself when it fires) with either fact state, the Execute placed before or after the instance-level removals; states = (program, world) pairs, transitions = FetchMatchingRules calls. Oracle: returned names == non-removed rules whose condition the reference evaluator finds true (each once), model saliences non-increasing, facts unchanged, no action probe ran, error returned iff flag set and some condition fails. Non-trivial: >=2 rules satisfied. Second family (one engine value serves several calls): every history of 1..3 FetchMatchingRules calls over 3 knowledge bases x 2 fact states on ONE *GruleEngine, every returned slice retained and re-read after every later call; and every such call nested inside a condition probe of an outer call on the same engine value. Each retained answer must keep naming exactly the rules that were satisfied at its own call, in salience order."
+	rep.Coverage["rule"] = "every rule set of 2 rules over 15 conditions (true, false, state-dependent, shared sub-expression, nil pointer, missing fact, kind mismatch, index out of range, parenthesised map lookup that errors in one world - shared between two shapes; && / || whose left operand fails while the right one is shared with another rule and would decide; a computed selector whose index expression also stands alone) x 6 salience pairs x removal sets (library- and instance-level) x both values of ReturnErrOnFailedRuleEvaluation, every rule set of 3 rules over 5 (thorough 8) conditions x 6 salience triples x 3 removal sets x flag (thorough: 4 rules), 2 fact states, EVERY rule-iteration order (k!), each call on a fresh instance AND on an instance that served an earlier Fetch with the other fact state AND on one that served an earlier Execute (every rule retracts itself when it fires) with either fact state, the Execute placed before or after the instance-level removals; states = (program, world) pairs, transitions = FetchMatchingRules calls. Oracle: returned names == non-removed rules whose condition the reference evaluator finds true (each once), model saliences non-increasing, facts unchanged, no action probe ran, error returned iff flag set and some condition fails. Non-trivial: >=2 rules satisfied. Second family (one engine value serves several calls): every history of 1..3 FetchMatchingRules calls over 3 knowledge bases x 2 fact states on ONE *GruleEngine, every returned slice retained and re-read after every later call; and every such call nested inside a condition probe of an outer call on the same engine value. Each retained answer must keep naming exactly the rules that were satisfied at its own call, in salience order."
 }
 
 // c11SharedEngine: the answers of FetchMatchingRules stay what they were, however the engine value is used afterwards
